@@ -141,6 +141,26 @@ pub fn handle(op: &str, a: &[&str]) -> Option<String> {
                 first.map(|x| x.to_string()).unwrap_or("-".into())
             ))
         }
+        // `rho_fail_search <plo> <phi>`: all n = p*q with primes plo <= p <= q < phi: does pollard_rho::rho fail?
+        "rho_fail_search" => {
+            let plo: u64 = a.first()?.parse().ok()?;
+            let phi: u64 = a.get(1)?.parse().ok()?;
+            let ps: Vec<u64> = (plo..phi).filter(|&x| yamaquasi::isprime64(x)).collect();
+            let mut fails = vec![];
+            let mut count = 0u64;
+            for (i, &p) in ps.iter().enumerate() {
+                for &q in &ps[i..] {
+                    let Some(n) = p.checked_mul(q) else { continue };
+                    count += 1;
+                    if yamaquasi::pollard_rho::rho(&n.into(), Verbosity::Silent).is_none() {
+                        if fails.len() < 20 {
+                            fails.push(n);
+                        }
+                    }
+                }
+            }
+            Some(format!("pairs={count} fails={}", show_list(&fails)))
+        }
         _ => None,
     }
 }
